@@ -909,6 +909,7 @@ def r12_4(chk: Check, M: Model, slots: dict) -> None:
     R = M.refs
     DM = ex.sym(M.slot_syms["dMsqdChi"]) if "dMsqdChi" in M.slot_syms else None
     rows = {}
+    ident_spectral, n_transfer = [], {}
     shape_ok, ip_seen = True, []
     jac_axes = []
     for arm in ("spectral", "fd"):
@@ -962,6 +963,10 @@ def r12_4(chk: Check, M: Model, slots: dict) -> None:
                         if kept not in roles_:
                             bad.append(f"{n(base)[:40]} is a {direction}-direction matrix but sits on axes {kept}")
                         mats[kept] = kind
+                        if kind == "T" and basis is None and arm == "spectral":
+                            ident_spectral.append(f"{tname}: `{n(base)[:40]}` on axes {kept} is an identity")
+                        if kind == "T":
+                            n_transfer[arm] = n_transfer.get(arm, 0) + 1
                         if basis is not None:
                             wb = "self.basisM" if direction == "z" else "self.basisN"
                             if not eqx(basis, wb):
@@ -995,6 +1000,11 @@ def r12_4(chk: Check, M: Model, slots: dict) -> None:
                     jac_axes.append((sym, _leaf_axis(leaf)))
             chk.ob("R12.4", fi.where(), f"{arm} mode, {'Liouville term ' + tname[1] if tname != 'C' else 'collision term'}: "
                    "every factor sits on the axes its provenance dictates", not bad, "; ".join(bad)[:400], key=f"roles|{arm}|{tname}")
+    # R12.12: with polynomial coefficients as unknowns (spectral arm) a term without a derivative along a direction still needs the
+    # coefficient-to-grid matrix of that direction; an identity there is right only when the unknowns are grid values (finite-difference arm).
+    chk.ob("R12.12", fi.where(), "spectral mode: every non-derivative slot of the Liouville and collision terms carries the coefficient-to-grid matrix "
+           f"Polynomial.matrix(basis, direction) of the solver's basis, never an identity ({n_transfer.get('spectral', 0)} transfer matrices)",
+           not ident_spectral and n_transfer.get("spectral", 0) >= 5, "; ".join(ident_spectral)[:300], key="transfer|spectral")
     if not ip_seen:
         raise AnchorMissing("buildLinearEquations: the particle identity of the Liouville operator was not found")
     kept, rank, node = ip_seen[0]
